@@ -30,7 +30,7 @@ def classify(case, failure):
     if len(case) < 4:
         return None
     name = case[0]
-    if name in ("S8_rule_query_twice", "S16_rule_with_alternative_and_next_twice") and failure.kind in ("incomplete-evaluation", "wrong-prefix", "wrong-results") \
+    if name in ("S8_rule_query_twice", "S16_rule_with_alternative_and_next_twice") and failure.kind in ("incomplete-evaluation", "wrong-prefix", "wrong-results", "wrong-side-effects") \
             and steps_overlap(case):
         return "C03/overlapping-evaluations-of-one-rule-query"
     return None
